@@ -829,6 +829,7 @@ func (x *Exec) sliceOp(st *State, fr *Frame, v *ssa.Slice) Val {
 		} else {
 			hi = UF(SI, "str.len", s)
 		}
+		x.implicitPanic(st, Or(Lt(lo, TInt(0)), Lt(hi, lo), Gt(hi, UF(SI, "str.len", s))), "strslice", "string slice bounds out of range")
 		return UF(SI, "str.sub", s, lo, hi)
 	}
 	unsup("Slice on %s", v.X.Type())
@@ -945,6 +946,10 @@ func (x *Exec) typeAssert(st *State, fr *Frame, v *ssa.TypeAssert) Val {
 	} else {
 		ok = And(Neq(iv, TInt(0)), Eq(ifTag(iv), x.eng.typeID(at)))
 		val = x.unboxIface(st, iv, at)
+		if tv, isT := val.(Term); isT && tv.Sort == SI {
+			// a value boxed with this dynamic type is a value of the type
+			st.assume(Imp(ok, st.typeConstraint(tv, at)))
+		}
 	}
 	if v.CommaOk {
 		// on failure the value is the zero value
